@@ -12,7 +12,7 @@ From Coq Require Import List ZArith NArith Bool.
 From BBS Require Import Common.Sx Buffer.Source Buffer.Validate Buffer.Convert Buffer.ErrHandler
   Buffer.StreamProofs Buffer.ValidateProofs Buffer.ErrHandlerProofs Buffer.ClosedOnceProofs
   Buffer.ErrHandlerStackProofs Buffer.StackRuleProofs Buffer.ValidateReaderProofs Buffer.ConvertProofs
-  Buffer.EHFullCarry Buffer.EHFullReader Buffer.EHFullMethods Buffer.EHFullStack Buffer.EHFullPrefix Buffer.EHFullExact Buffer.EHFullStackExact Buffer.EHFullStacking Buffer.EHFullCompleted Buffer.EHFullPartial Buffer.EHFullMon Buffer.EHFullMon3 Run.R09 Run.R16 Run.R16Proofs.
+  Buffer.EHFullCarry Buffer.EHFullReader Buffer.EHFullMethods Buffer.EHFullStack Buffer.EHFullPrefix Buffer.EHFullExact Buffer.EHFullStackExact Buffer.EHFullStacking Buffer.EHFullCompleted Buffer.EHFullPartial Buffer.EHFullTrace Buffer.EHFullRuns Buffer.EHFullMon Buffer.EHFullMon3 Buffer.EHFullMonS Run.R09 Run.R16 Run.R16Proofs.
 Import ListNotations.
 Open Scope N_scope.
 
@@ -492,6 +492,46 @@ Print Assumptions clause_1_silent_on_model.
 Theorem clause_3_silent_on_model_partial : forall inp, dom16 inp -> ~ In 3%Z (mon16 inp (run16 inp)).
 Proof. exact clause_3_silent_on_model. Qed.
 Print Assumptions clause_3_silent_on_model_partial.
+
+(** Every streaming run of a stack, however it ends, against the level-wise
+    specification [(st, term, offss) = stitch_stack (piece_of b0 0) anss]
+    (Buffer/EHFullTrace.v, EHFullRuns.v): every level's OnError arguments are a
+    prefix of its offers in the specification; and either the method rejected
+    its offset, or the validated stream [out] is a prefix of [st], the consumer
+    holds [out] from the method's offset, fewer than [size] bytes unless the
+    stream reached io.EOF, and the run ended with the specification's own final
+    error (all offers made), with a validation failure at the specification's
+    io.EOF, or with a validation failure because [st] is longer than the digest's
+    size. *)
+Theorem every_streaming_run_against_the_specification : forall H cfg fuel b0 anss m,
+  streaming m -> anss <> [] -> bad_param (g_size cfg) m = false ->
+  wf_case b0 anss ->
+  y_err (run_stack H cfg fuel b0 anss m) <> EFuel ->
+  no_fuel_offered (y_logs (run_stack H cfg fuel b0 anss m)) ->
+  let o := run_stack H cfg fuel b0 anss m in
+  let '(st, term, offss) := (let '(p0, t0) := piece_of b0 0 in stitch_stack p0 t0 anss) in
+  Forall2 lpre (map oell (y_logs o)) offss /\
+  ((y_err o = ECode 3 /\ y_data o = [] /\ term = EEof /\ map oell (y_logs o) = offss) \/
+   (exists out e rest,
+      e <> ENone /\ st = out ++ rest /\ y_data o = dropN (Z.to_N (m_off m)) out /\
+      y_err o = method_err m e /\ (e <> EEof -> out = [] \/ lenN out < g_size cfg) /\
+      ended_run cfg e st term (map oell (y_logs o)) offss)).
+Proof. exact run_stack_streaming_facts. Qed.
+Print Assumptions every_streaming_run_against_the_specification.
+
+(** THE MONITOR IS SILENT ON THE MODEL for every streaming method (IntoWriter,
+    ToChunkReader, ToReader): all clauses of [mon16] (1-5 and 7-10; clause 6
+    concerns the other methods) — [mon16 inp (run16 inp) = []] for every input
+    of [dom16s] (Buffer/EHFullMonS.v): at least one handler; well-formed buffers
+    (readers that attach EOF to data have scripts of chunks and at most one
+    final Eof event, as the harness generates them); an offset the method
+    accepts; the model did not run out of fuel (no EFuel as the result or offered
+    to a handler); a positive final error code.  So on the unchanged tree a
+    monitor alarm on a streaming case can only come from an implementation
+    observation that differs from the model's. *)
+Theorem monitor_silent_on_model_streaming_partial : forall inp, dom16s inp -> mon16 inp (run16 inp) = [].
+Proof. exact mon16_silent_on_model_streaming. Qed.
+Print Assumptions monitor_silent_on_model_streaming_partial.
 
 (** Non-vacuity: the original fails after one byte, the replacement is opened
     at offset 1; the consumer gets 1,2,3 once each, validation succeeds, the
